@@ -39,17 +39,69 @@ pub fn lex(s: &str) -> Result<TokenStream, String> {
     TokenStream::from_str(s).map_err(|e| format!("lex error: {e}"))
 }
 
+thread_local! {
+    static FRAGMENTS: std::cell::Cell<bool> = std::cell::Cell::new(false);
+}
+/// While set, the item handed to the expander carries invisible (`Delimiter::None`) groups, as if parts of it had
+/// arrived as `macro_rules!` fragments: simple type names (`$t:ty`) and the value of every `by = ..` (`$f:expr`).
+pub fn set_fragments(on: bool) {
+    FRAGMENTS.with(|f| f.set(on));
+}
+fn fragmentize(ts: TokenStream) -> TokenStream {
+    use proc_macro2::Group;
+    let toks: Vec<TokenTree> = ts.into_iter().collect();
+    let mut out: Vec<TokenTree> = Vec::new();
+    let mut i = 0;
+    while i < toks.len() {
+        match &toks[i] {
+            TokenTree::Ident(id) if id == "by" && matches!(toks.get(i + 1), Some(TokenTree::Punct(p)) if p.as_char() == '=') => {
+                out.push(toks[i].clone());
+                out.push(toks[i + 1].clone());
+                let mut j = i + 2;
+                let mut inner: Vec<TokenTree> = Vec::new();
+                // up to the next argument of the helper attribute (a closure has commas of its own)
+                let next_arg = |k: usize| matches!(&toks[k], TokenTree::Punct(p) if p.as_char() == ',') && matches!(toks.get(k + 1), Some(TokenTree::Ident(n)) if ["ignore", "reverse", "key", "bound"].iter().any(|a| n == a));
+                while j < toks.len() && !next_arg(j) {
+                    inner.push(toks[j].clone());
+                    j += 1;
+                }
+                out.push(TokenTree::Group(Group::new(Delimiter::None, inner.into_iter().collect())));
+                i = j;
+            }
+            TokenTree::Ident(id) if ["u8", "u16", "i32", "String", "V"].iter().any(|n| id == n) => {
+                out.push(TokenTree::Group(Group::new(Delimiter::None, std::iter::once(toks[i].clone()).collect())));
+                i += 1;
+            }
+            TokenTree::Group(g) => {
+                let mut n = Group::new(g.delimiter(), fragmentize(g.stream()));
+                n.set_span(g.span());
+                out.push(TokenTree::Group(n));
+                i += 1;
+            }
+            t => {
+                out.push(t.clone());
+                i += 1;
+            }
+        }
+    }
+    out.into_iter().collect()
+}
+fn lex_item(item: &str) -> Result<TokenStream, String> {
+    let i = lex(item)?;
+    Ok(if FRAGMENTS.with(|f| f.get()) { fragmentize(i) } else { i })
+}
+
 /// `#[derive_ex(<attr>)] <item>` through the attribute-macro entry point.
 pub fn expand_attr(attr: &str, item: &str) -> Result<TokenStream, String> {
     let a = lex(attr)?;
-    let i = lex(item)?;
+    let i = lex_item(item)?;
     catch_unwind(AssertUnwindSafe(|| dxlib::derive_ex(a, i))).map_err(|e| format!("panic: {}", panic_msg(e)))
 }
 
 /// `#[derive(Ex)] <item>` through the derive-macro entry point (`item` still carries its
 /// `#[derive_ex(..)]` attributes, exactly as rustc hands it over).
 pub fn expand_derive(item: &str) -> Result<TokenStream, String> {
-    let i = lex(item)?;
+    let i = lex_item(item)?;
     catch_unwind(AssertUnwindSafe(|| dxlib::derive_ex_derive(i))).map_err(|e| format!("panic: {}", panic_msg(e)))
 }
 
